@@ -6,6 +6,7 @@
         field_security = fb * e
         query_security = log2(blowup) * queries  (+ grinding  when  >= 80)
         bits           = min(min(field_security, query_security) - 1, cr)
+   where fb is the bit length of the base field modulus as a number (BitLen of the announced bytes).
    MCSecurity.tla: the state of the exploration machine is one option tuple (blowup, extension degree, grinding,
    queries) for a field size fb and a collision resistance cr; the actions raise the number of
    queries, the grinding factor or the extension degree by one.  TLC checks over the WHOLE grid
@@ -20,10 +21,8 @@
    DECISION RULES.  `Meets(bits, m)` and `InSet(o, S)` are the specification of
    AcceptableOptions::validate; GenSecurity.tla prints option-set cases (options that differ from the proof's
    options in exactly one field, or in none) with the expected verdict. *)
-EXTENDS Naturals, Sequences, FiniteSets, TLC, Json
+EXTENDS Naturals, Sequences, FiniteSets, TLC, Json, Bytes
 
-Min2(x, y) == IF x < y THEN x ELSE y
-Max2(x, y) == IF x > y THEN x ELSE y
 Log2(x) == CHOOSE k \in 0..30 : 2 ^ k = x           \* blowup factors are powers of two
 
 GrindingFloor == 80
@@ -33,6 +32,38 @@ QuerySecurity(bl, gr, nq) ==
 
 Conj(bl, ex, gr, nq, fbits, cres) ==
   Min2(Min2(fbits * ex, QuerySecurity(bl, gr, nq)) - 1, cres)
+
+(***************************************************************************)
+(* The base field of a proof context                                        *)
+(* A context announces its field by the little-endian bytes of the modulus.  The field size that     *)
+(* enters the estimates is the bit length of that NUMBER (index of its highest set bit), whatever    *)
+(* the length of the encoding: high zero bytes do not make a field bigger.                            *)
+(***************************************************************************)
+BitLen(bs) == LET t == Trim(bs) IN IF t = <<>> THEN 0 ELSE 8 * (Len(t) - 1) + (8 - LZ8(t[Len(t)]))
+
+M62  == <<1, 0, 0, 0, 128, 200, 255, 63>>                                        \* 2^62 - 111*2^39 + 1
+M64  == <<1, 0, 0, 0, 255, 255, 255, 255>>                                      \* 2^64 - 2^32 + 1
+M128 == <<1, 0, 0, 0, 0, 211, 255, 255, 255, 255, 255, 255, 255, 255, 255, 255>> \* 2^128 - 45*2^40 + 1
+M31  == <<1, 0, 0, 120>>                                                        \* 15*2^27 + 1 (31 bits)
+\* Encodings of base fields.  src "new": Context::new over a StarkField type whose
+\* get_modulus_le_bytes() returns these bytes (the three built-in fields; toy fields with minimal-length
+\* bytes; custom fields that keep a small modulus in a wide integer).  src "wire": Context::read_from
+\* on a serialized context whose modulus field holds these bytes (zero padded).
+Flds == {"f62", "f64", "f128", "toy97", "toy257", "toy40961", "pad97x8", "pad257x4", "pad40961x8",
+         "w:f64x9", "w:f64x12", "w:f64x16", "w:f62x16", "w:p31x4", "w:p31x8", "w:97x1", "w:97x4", "w:97x8"}
+BuiltinFlds == {"f62", "f64", "f128"}
+WireFlds == {"w:f64x9", "w:f64x12", "w:f64x16", "w:f62x16", "w:p31x4", "w:p31x8", "w:97x1", "w:97x4", "w:97x8"}
+ModOf(f) == CASE f = "f62" -> M62 [] f = "f64" -> M64 [] f = "f128" -> M128
+              [] f = "toy97" -> <<97>> [] f = "toy257" -> <<1, 1>> [] f = "toy40961" -> <<1, 160>>
+              [] f = "pad97x8" -> PadTo(<<97>>, 8) [] f = "pad257x4" -> PadTo(<<1, 1>>, 4)
+              [] f = "pad40961x8" -> PadTo(<<1, 160>>, 8)
+              [] f = "w:f64x9" -> PadTo(M64, 9) [] f = "w:f64x12" -> PadTo(M64, 12) [] f = "w:f64x16" -> PadTo(M64, 16)
+              [] f = "w:f62x16" -> PadTo(M62, 16)
+              [] f = "w:p31x4" -> M31 [] f = "w:p31x8" -> PadTo(M31, 8)
+              [] f = "w:97x1" -> <<97>> [] f = "w:97x4" -> PadTo(<<97>>, 4) [] f = "w:97x8" -> PadTo(<<97>>, 8)
+SrcOf(f) == IF f \in WireFlds THEN "wire" ELSE "new"
+FieldBitsOf(f) == BitLen(ModOf(f))
+FieldInfo(f) == [fld |-> f, src |-> SrcOf(f), mod |-> ModOf(f), fbits |-> FieldBitsOf(f)]
 
 (***************************************************************************)
 (* Decision rules of AcceptableOptions::validate                           *)
